@@ -398,7 +398,12 @@ func runC11(c *core.Ctx) {
 		for k := 0; k < procs; k++ {
 			// the case's own command first, then the others in rotation: every resolving command sees every case class
 			t.cmd = cmds[(i+k)%len(cmds)]
-			args = append(append([]string{}, baseArgs...), t.cmd...)
+			args = append([]string{}, baseArgs...)
+			if k%3 == 2 && t.cmd[0] != "summary" {
+				// a period that keeps no day, every day or is inverted: the book is resolved all the same
+				args = append(args, randomPeriod(rr, func(y, m, d int) string { return fmt.Sprintf("%04d/%02d/%02d", y, m, d) })...)
+			}
+			args = append(args, t.cmd...)
 			res := run.Exec(c.HR, args, run.ExecOpts{Dir: dir, Env: env, Timeout: 120 * time.Second})
 			c.Eval(1)
 			c.Count("cli_fresh_processes", 1)
